@@ -60,3 +60,8 @@ def nfkc(s):
 def CUT(name):
     """marker of a cut point in a specification (no effect when the specification is run)"""
     return None
+
+
+def hash_parts(*parts):
+    """hash of the tuple of the given strings"""
+    return hash(tuple(parts))
